@@ -16,15 +16,21 @@ try:
     binp = r.stdout.strip().split("\n")[-1]
     assert os.path.exists(binp), r.stdout + r.stderr
     from vlib.gen import HistGen, payload
-    shutil.rmtree(OUT, ignore_errors=True)
-    os.makedirs(OUT)
+    only = sys.argv[1:]          # names to (re)create; none = all
+    if not only:
+        shutil.rmtree(OUT, ignore_errors=True)
+    os.makedirs(OUT, exist_ok=True)
     specs = []
     for k in range(6):
         specs.append((f"hist{k}", k, "clean"))
     specs += [("big", 100, "big"), ("wal-committed", 101, "hold-abort"), ("wal-uncommitted", 102, "crashmid"), ("wal-big", 103, "hold-abort-big")]
+    specs.append(("huge", 104, "huge"))
     for name, seed, kind in specs:
+        if only and name not in only:
+            continue
         rng = random.Random(seed)
         d = os.path.join(OUT, name)
+        shutil.rmtree(d, ignore_errors=True)
         os.makedirs(os.path.join(d, "data"))
         g = HistGen(rng, rng.choice([2, 3, 4]), adversarial=(seed % 2 == 1), reopen=True, harness_steps=True)
         ops = []
@@ -36,6 +42,11 @@ try:
         if "big" in kind:
             for c in sorted(g.created):
                 ops += [f"av {c} latest:{c} r:{rng.choice([70000, 300000, 2000000])}", f"as {c} latest:{c} r:{rng.choice([5000, 1000000])}"]
+        if kind == "huge":
+            # payloads near the top of what the pinned release accepts over HTTP (100 MiB bodies): a
+            # 40 MiB history segment and a 36 MiB snapshot, cheap content
+            ops = ["ensure 1", "av 1 nil z:1000:1", "av 1 latest:1 z:41943040:2", "av 1 latest:1 b:3", "as 1 latest:1 z:37748736:4",
+                   "av 1 latest:1 b:5", "ensure 2", "av 2 fresh b:1,2", "av 2 latest:2 z:17825792:6", "as 2 latest:2 b:7", "av 2 latest:2 b:8"]
         ops += ["dumpall", f"savestate {d}/ids.txt"]
         if kind.startswith("hold"):
             ops.append("abort")
